@@ -320,7 +320,7 @@ def run_impl(binary, sub, cases, timeout=1200, shards=8):
     out = []
     for p, data, k in procs:
         o, e = p.communicate(data, timeout=timeout)
-        lines = [l for l in o.splitlines() if l.strip()]
+        lines = [l for l in o.split("\n") if l.strip()]
         if p.returncode != 0 or len(lines) != k:
             raise RuntimeError(f"harness {sub} failed rc={p.returncode} got {len(lines)}/{k}: {e[-1500:]}")
         out.extend(json.loads(l) for l in lines)
